@@ -471,10 +471,18 @@ class ExprCanon(ast.NodeTransformer):
                 for c in g.ifs:
                     # all(E for v in T if c)  ==  all(not c or E);  any(E .. if c)  ==  any(c and E)
                     elt = _loc(ast.BoolOp(op=ast.And(), values=[c, elt]), node) if f0.id == "any" else _loc(ast.BoolOp(op=ast.Or(), values=[negate(copy.deepcopy(c)), elt]), node)
-                if rows is not None and all(r is not None and all(_atomic_row(x) or (isinstance(x, (ast.Tuple, ast.List)) and all(_atomic_row(y) for y in x.elts)) for x in r) for r in rows) and _boolean_typed(elt) and not any(isinstance(n, (ast.Lambda, ast.NamedExpr)) for n in ast.walk(elt)) and not any(isinstance(n, ast.Name) and n.id in names and isinstance(n.ctx, ast.Store) for n in ast.walk(elt)):
-                    parts = [_SubstNames(dict(zip(names, r))).visit(copy.deepcopy(elt)) for r in rows]
+                if rows is not None and all(r is not None and all(_atomic_row(x) or (isinstance(x, (ast.Tuple, ast.List)) and all(_atomic_row(y) for y in x.elts)) for x in r) for r in rows) and not any(isinstance(n, (ast.Lambda, ast.NamedExpr)) for n in ast.walk(elt)) and not any(isinstance(n, ast.Name) and n.id in names and isinstance(n.ctx, ast.Store) for n in ast.walk(elt)):
+                    # any / all answer True or False: each row's value is taken as a boolean (`bool(..)` unless it is one)
+                    parts = [_as_bool(self.visit(ast.fix_missing_locations(_SubstNames(dict(zip(names, r))).visit(copy.deepcopy(elt))))) for r in rows]
                     new = parts[0] if len(parts) == 1 else _loc(ast.BoolOp(op=ast.Or() if f0.id == "any" else ast.And(), values=parts), node)
                     return self.visit(ast.fix_missing_locations(new))
+        # bool(X) with X a boolean already
+        if isinstance(f0, ast.Name) and f0.id == "bool" and len(node.args) == 1 and not node.keywords and _boolean_typed(node.args[0]):
+            return node.args[0]
+        # (lambda p, q: BODY)(a, b) with simple arguments -> BODY[p := a, q := b]
+        if isinstance(f0, ast.Lambda) and not node.keywords and not f0.args.vararg and not f0.args.kwarg and not f0.args.kwonlyargs and not f0.args.defaults and len(f0.args.args) == len(node.args) and all(_atomic_row(x) and not isinstance(x, ast.Lambda) for x in node.args) and not any(isinstance(x, (ast.Lambda, ast.ListComp, ast.SetComp, ast.DictComp, ast.GeneratorExp, ast.NamedExpr)) for x in ast.walk(f0.body)):
+            m = {p.arg: a_ for p, a_ in zip(f0.args.args, node.args)}
+            return self.visit(ast.fix_missing_locations(_SubstNames(m).visit(copy.deepcopy(f0.body))))
         # partial(f, a, k=b)(x) -> f(a, x, k=b)
         if _is_partial(f0) and not any(k.arg is not None and k.arg in {q.arg for q in f0.keywords} for k in node.keywords):
             node.args = list(f0.args[1:]) + list(node.args)
@@ -805,9 +813,20 @@ def _mentions(node, name):
     return any(isinstance(n, ast.Name) and n.id == name for n in ast.walk(node))
 
 
+def _as_bool(e):
+    """an expression with the truth value of e that is a bool: e itself when boolean-typed, else bool(e)"""
+    if _boolean_typed(e):
+        return e
+    if isinstance(e, ast.BoolOp):
+        return _loc(ast.BoolOp(op=e.op, values=[_as_bool(v) for v in e.values]), e)
+    return _loc(ast.Call(func=_loc(ast.Name(id="bool", ctx=ast.Load()), e), args=[e], keywords=[]), e)
+
+
 def _atomic_row(e):
     if isinstance(e, ast.Constant):
         return True
+    if isinstance(e, ast.Lambda) or _is_partial(e):
+        return True  # a function value: substituted where it is called
     if isinstance(e, ast.Name):
         return True
     if isinstance(e, ast.Attribute):
